@@ -408,12 +408,6 @@ class CodeGenEnvironment(Environment):
             auto_reload=False,
             cache_size=400,
         )
-        if additional_globals is not None:
-            for global_name, global_value in additional_globals.items():
-                if global_name in self.RESERVED_GLOBAL_NAMESPACES or global_name in self.RESERVED_GLOBAL_NAMES:
-                    raise RuntimeError(f'Additional global "{global_name}" uses a reserved global name')
-                self.globals[global_name] = global_value
-
         self._allow_replacements = allow_filter_test_or_use_query_overwrite
 
         for global_namespace in self.RESERVED_GLOBAL_NAMESPACES:
@@ -436,6 +430,12 @@ class CodeGenEnvironment(Environment):
         self.update_nunavut_globals()
 
         self.add_conventional_methods_to_environment(self)
+
+        if additional_globals is not None:  # added last: neither silently dropped nor silently replacing anything
+            for global_name, global_value in additional_globals.items():
+                if global_name in self.globals:  # reserved namespaces and names, Jinja defaults, language globals
+                    raise RuntimeError(f'Additional global "{global_name}" uses a reserved or already defined name')
+                self.globals[global_name] = global_value
 
         if additional_filters is not None:
             self._add_each_to_environment(
